@@ -112,7 +112,8 @@ class Interp(object):
 
     # ------------------------------------------------------------------ small helpers
     def new_cell(self, st, cell):
-        cid = "c%d" % next(self.cid)
+        self.n_cells = getattr(self, "n_cells", 0) + 1
+        cid = "c%d" % self.n_cells
         st.heap[cid] = cell
         return Ref(cid)
 
@@ -191,6 +192,11 @@ class Interp(object):
             spec = self.contracts.classes[cls]
             fields = {}
             for f, fty in spec.fields.items():
+                if fty.startswith("MethodOf["):
+                    # a field holding a bound method of an abstract element stored in another field
+                    a, m = [x.strip() for x in fty[9:-1].split(",")]
+                    fields[f] = Fun("elem-method", elem=fields[a], name=m)
+                    continue
                 if fty.startswith("Arith["):
                     # ghost iterator over the arithmetic progression start, start+step, ... (< stop if has_stop)
                     a, b, c, k = [x.strip() for x in fty[6:-1].split(",")]
@@ -1045,6 +1051,9 @@ class Interp(object):
             l = lit_int(self.num(lo)) if lo is not None and not isinstance(lo, NoneV) else None
             h = lit_int(self.num(hi)) if hi is not None and not isinstance(hi, NoneV) else None
             return Str(v.s[l:h])
+        if (lo is None or isinstance(lo, NoneV)) and (hi is None or isinstance(hi, NoneV)) and isinstance(v, Ref) \
+                and isinstance(s.heap[v.cid], LstCell):
+            return self.new_cell(s, LstCell(self.deref(s, v)))        # l[:] -- a new list with the same items
         view = self.as_view(s, v)
         n = view.len
         if view.items is not None:
